@@ -211,6 +211,13 @@ def sentinel_test(l, r):
     return is_sentinel(l) or is_sentinel(r) or _is_loop_counter(l) or _is_loop_counter(r)
 
 
+def sentinel_wrong_side(op, l, r, pol):
+    """the condition is a comparison with the end-of-list sentinel and the path is on the side where the id IS the sentinel (`if id == u32::MAX` taken,
+    `if id != u32::MAX` not taken): nothing issued there reaches a live listener"""
+    if not (is_sentinel(l) or is_sentinel(r)): return False
+    return (op == "Eq" and pol) or (op == "Ne" and not pol)
+
+
 def length_source(fx, s, atom):
     """(kind, transition value): 'reserve' (length before, 0), 'publish' (length after, 1), 'post' (sampled after the publication CAS, 1), 'presend' (0)"""
     txt = show(atom)
@@ -310,6 +317,27 @@ def check_poll_protocol(ctx):
         lo2, _, _ = util.count_on_paths(body, lambda b: b in unlocks, start=sb)
         after_unlock = all(any(body.dominates(ub, wb) for ub in unlocks) for wb in wakes if body.dominates(sb, wb)) if unlocks else True
         ctx.ob("R04.2", f"{k}|wake-outside-wakers_lock|{len(seen)}", after_unlock, body.loc(sb), "the self-wake happens after wakers_lock was released (a waker that polls inline would otherwise self-deadlock)")
+    # (c) every store into the wakers table happens with wakers_lock held (typestate): the locked re-check of wake_stream (R04.7) only means "the stream has
+    # not parked yet" if a registration cannot be half-way through its store at that moment; the same for the slot being cleared when a stream is dropped
+    eng_ = ts.Engine(fx)
+    lockp = lambda r: r[0] == "lock" and r[1] and r[1][-1] == "wakers_lock"
+    for kk in (SM + "::register_stream_waker", SM + "::report_stream_dropped"):
+        bb_ = Body(fx.fn(kk)); dd_ = D.Dag(bb_)
+        sts_ = [(b, c) for (b, c) in bb_.calls if c.get("fname") in ("insert", "replace", "get_or_insert", "get_or_insert_with", "write", "take") and "wakers" in str(ts.access_path(bb_, c["args"][0]) or show(dd_.expr(c["args"][0])))]
+        for a in guards.accesses(bb_, SM, {"wakers"}):
+            if a["kind"] == "w" and a["how"] != "direct": sts_.append((a["b"], None))
+        an_ = eng_.analyse(kk)
+        for n_, sb_ in enumerate(sorted({x[0] for x in sts_})):
+            okl = an_.must_hold(sb_, lockp) and not an_.undecided
+            ctx.ob("R04.2", f"{kk}|waker-slot-written-under-wakers_lock|{n_ + 1}", okl, bb_.loc(sb_), "the waker slot is written with wakers_lock held")
+    # (d) no function of the streams manager returns with one of its spin locks still held (the next registration / wake / listener change would spin forever)
+    for f_ in fx.fns:
+        if f_.get("impl_self") != SM or "::{closure#" in f_["key"]: continue
+        if not any(blk["term"][0] == "Call" and (blk["term"][1].get("resolved") or blk["term"][1].get("f")) == R.SPIN_LOCK for blk in f_["blocks"]): continue
+        an_ = eng_.analyse(f_["key"])
+        leaks = [o for o in an_.outcomes if o[1]]
+        ctx.ob("R04.2", f"{f_['key']}|returns-with-no-lock-held", not leaks and not an_.undecided, f"{f_['file']}:{f_['line']}",
+               "every exit releases the spin lock(s) taken" if not leaks else f"returns holding {sorted(leaks[0][1])}")
     k = WAKE
     body = Body(fx.fn(k)); dg = D.Dag(body)
     wk = [(b, c) for (b, c) in body.calls if c.get("fname") in ("wake_by_ref", "wake")]
@@ -409,7 +437,18 @@ def check_wake_sites(ctx):
             ctx.ob("R04.5", f"{owner}|heuristic-wake|{reason}", False, primary.body.loc(primary.b),
                    f"{primary.verdict[2]}: " + "; ".join(WHY.get(r, r) for r in reason.split("+")))
         else:
-            ctx.ob("R04.5", f"{owner}|only-unconditioned-wakes", True, loc, "wakes unconditionally", nontrivial=False)
+            # only wakes without a length condition: sound (like class A) only if one of them follows a SUCCESSFUL publication -- the extra wake issued before
+            # retrying a full queue sits on the failure edge and tells the consumer nothing about the event that is published later
+            import importlib
+            C01 = importlib.import_module("props.C01")
+            def after_success(x):
+                sw = [p_ for p_ in C01.pub_switches(x.body, x.dg) if p_["role"] != "is_full" and x.body.dominates(p_["b"], x.b)]
+                if not sw: return True        # no publication outcome is tested on the way (crossbeam's ignored try_send, container callbacks): R04.3 orders it
+                pubs_ = {b for (b, c) in x.body.calls if c.get("fname") in PUB}
+                return any(x.b not in ({p_["failure"]} | x.body.reach_from(p_["failure"], avoid=frozenset(pubs_))) for p_ in sw)
+            okx = any(after_success(x) for x in ss)
+            ctx.ob("R04.5", f"{owner}|only-unconditioned-wakes", okx, loc, "wakes unconditionally after a successful publication" if okx else
+                   "the only wake of this accept path is the one issued when the publication FAILED (queue full, before retrying): the successful publication wakes nobody", nontrivial=not okx)
     # ------------------------------------------------------------------ R04.6 every implemented accept entry point reaches a wake
     reach = {}
     def wake_reach(key, depth=0):
@@ -496,6 +535,9 @@ def _classify(ctx, fx, s, tag):
     kind = KIND.get(s.ch)
     listener = is_listener_id(s.target) or s.target == ALL      # the sweep wakes every stream id: any guard on it is judged like a listener's own wake
     at = []
+    if any(sentinel_wrong_side(op, l, r, pol) for (op, l, r, pol) in s.conds):
+        return ("U", "the wake sits on the branch where the listener id read from the live list IS the end-of-list sentinel: no live listener is ever woken by it",
+                f"wake({_short(show(s.target))}) only for the sentinel entry")
     for (op, l, r, pol) in s.conds:
         if sentinel_test(l, r): continue     # `id != u32::MAX`: end-of-list sentinel of the live-listener list
         atoms(l, at); atoms(r, at)
